@@ -23,7 +23,7 @@ N = 3
 
 def cases(tier):
     out = []
-    depths = [0, 1, 2, 3]
+    depths = [0, 1, 2, 3] if tier == "quick" else [0, 1, 2, 3, 4, 5, 6]
     for role in ("argument", "kwarg", "callee"):
         for flavour in ("plain", "pyname", "dotted", "dotted3", "dotted3same", "dotted4", "backquoted", "unicode"):
             if role in ("argument", "kwarg") and flavour.startswith("dotted"):
@@ -148,7 +148,8 @@ def harness(env, case):
 
     src = []
     gdicts = []
-    for i in range(4):
+    NC = 7  # generated nested callers
+    for i in range(NC):
         g = {"__builtins__": __builtins__}
         if i == depth:
             if bits["globals"]:
@@ -157,7 +158,7 @@ def harness(env, case):
             g[head] = as_binding(val("decoy_globals", i))
         gdicts.append(g)
     # frame 0 calls design_matrices; frame i+1 calls frame i directly (no helper frames in between)
-    for i in range(4):
+    for i in range(NC):
         bind_local = (i == depth and bits["locals"]) or (i != depth and flavour not in ("backquoted", "unicode"))
         lines = [f"def caller{i}(chain, locs, dm, formula, df, k, extra):"]
         if bind_local:
@@ -169,9 +170,9 @@ def harness(env, case):
         exec("\n".join(lines), gdicts[i])
 
     def run_chain():
-        chain = [gdicts[i][f"caller{i}"] for i in range(4)]
-        locs = [bound("locals") if i == depth else as_binding(val("decoy_locals", i)) for i in range(4)]
-        return chain[3](chain, locs, design_matrices, formula, df, depth, extra)
+        chain = [gdicts[i][f"caller{i}"] for i in range(NC)]
+        locs = [bound("locals") if i == depth else as_binding(val("decoy_locals", i)) for i in range(NC)]
+        return chain[NC - 1](chain, locs, design_matrices, formula, df, depth, extra)
 
     order = ["data", "builtins", "locals", "globals", "extra"] if role != "callee" else ["builtins", "locals", "globals", "extra"]
     winner = next((s for s in order if bits[s]), None)
@@ -253,9 +254,9 @@ def run(tier, seed):
     rep.functions = ["formulae.environment.Environment.capture/with_outer_namespace, VarLookupDict", "formulae.matrices.design_matrices (env, extra_namespace)", "formulae.terms.call.Call.set_type (TRANSFORMS+ENCODINGS first)",
                      "formulae.terms.call_resolver.LazyVariable.eval, LazyCall.eval, get_function_from_module"]
     cs = cases(tier)
-    rep.bounds = {"scope subsets": "all 2^5 subsets per case (2^4 for dotted names, 2^3 for back-quoted names)", "roles": ["argument", "callee"], "flavours": ["plain", "name of a Python builtin (round / len)", "dotted m.fn", "dotted m.sub.fn", "back-quoted"],
-                  "env depth": "0..3 through four generated nested callers, each with its own globals dict; decoy bindings (distinct z3 values) at every other depth", "cases": len(cs)}
-    rep.outside = ["built-ins with dotted / back-quoted names do not exist; a back-quoted name cannot be a local variable", "depth > 3"]
+    rep.bounds = {"scope subsets": "all 2^5 subsets per case (2^4 for dotted names, 2^3 for back-quoted names)", "roles": ["argument", "callee"], "flavours": ["plain", "name of a Python builtin (round / len)", "dotted m.fn", "dotted m.sub.fn", "dotted m.fn.fn", "dotted m.a.b.fn", "back-quoted", "not in NFKC normal form"],
+                  "env depth": f"0..{3 if tier == 'quick' else 6} through seven generated nested callers, each with its own globals dict; decoy bindings (distinct z3 values) at every other depth", "cases": len(cs)}
+    rep.outside = ["built-ins with dotted / back-quoted names do not exist; a back-quoted name cannot be a local variable", f"depth > {3 if tier == 'quick' else 6}", "dotted names of more than four components"]
     rep.stubs = pipe.STUBS
     rep.assumptions = ["the built-in scope is represented by the built-in name 'I' (identity)"]
     rep.rule = "one path = (role, flavour, depth, subset of defining scopes); non-trivial = at least one scope defines the name"
